@@ -492,6 +492,23 @@ func (v *Verifier) applyContractNamed(s *State, fc *FuncContract, sig *types.Sig
 	if calleeFn != nil {
 		ev.altPkg = fnPkg(calleeFn)
 	}
+	if fc.Trusted || ifaceRecv || calleeFn == nil || calleeFn.Blocks == nil || !isModulePkg(fnPkg(calleeFn)) {
+		// a contract whose body is not verified by any check (foreign function, interface method, `trusted`): every
+		// application is an assumption and is listed in the evidence
+		var ens []string
+		for _, c := range fc.Clauses {
+			if c.Kind == "ensures" && !c.IsLoop {
+				ens = append(ens, c.Text)
+			}
+		}
+		kind := "foreign function"
+		if ifaceRecv {
+			kind = "interface method"
+		} else if calleeFn != nil && calleeFn.Blocks != nil && isModulePkg(fnPkg(calleeFn)) {
+			kind = "module function marked `trusted`"
+		}
+		v.assumptions["assumed contract ("+kind+", body not verified) of "+name+": ensures "+trunc(strings.Join(ens, " && "), 400)] = true
+	}
 	for _, c := range fc.Clauses {
 		if c.Kind == "requires" && !c.IsLoop {
 			if c.heldLock != nil {
